@@ -49,7 +49,7 @@ def base_name(n):
 
 def run_rac(prop, tier, seed, timeout):
     """bounded stand-in: same contracts evaluated at run time around the real functions, under /venv/bin/python"""
-    out = os.path.join(ROOT, 'evidence', '.rac_%s.json' % prop)
+    out = os.path.join(ROOT, 'evidence', '.rac_%s_%d.json' % (prop, os.getpid()))      # per process: checks of one property may run side by side
     if os.path.exists(out):
         os.unlink(out)
     env = dict(os.environ, PYTHONPATH=os.path.join(REPO, 'src') + os.pathsep + ROOT, PYG_BASE_VERIF='1', PYTHONDONTWRITEBYTECODE='1')
